@@ -125,6 +125,8 @@ def run_workers(prop, tier, seed, extra_env=None, nshards=NCPU, sv=SV, overall_t
     wd = work_dir(prop)
     env = dict(os.environ)
     env["SV_REPO"] = REPO
+    # listed signatures are recorded once and do not use up a worker's store of witnesses
+    env["SV_KNOWN"] = os.path.join(ROOT, "known_findings.jsonl")
     if extra_env:
         env.update(extra_env)
     procs = {}
